@@ -623,6 +623,33 @@ theorem filter_bytes_document (t : Ty) (hk : tyKeysOk t = true) (data out : Byte
       ∧ parseTop out = some (filterA t a).out.toJ :=
   filterBytes_parses t hk data out e h
 
+/-- FILTER BYTES = FILTER TREE (the link to sections 1–9): for every well-formed type and every
+input the grammar accepts, if `FilterJson` does not fail fatally, the bytes it returns parse to a
+tree that is – as a decode into Go maps / a Python dict sees it (`EqL`: per key the last member
+wins; member order and shadowed duplicates are invisible) – the rounded-numeral tree model's
+`filter` of the tree the input parses to.  So idempotence, only-drops, filter-valid-of-assignable
+… proved for `Martian.TypesR.filter` are statements about the bytes the real splicing produces. -/
+theorem filter_bytes_tree (t : Ty) (hwf : t.wf = true) (hk : tyKeysOk t = true) (data out : Bytes) (e : FErr)
+    (h : filterBytes t data = some (out, e)) (hne : e ≠ .fatal) :
+    ∃ j0 j, parseTop data = some j0 ∧ parseTop out = some j ∧ EqL j (Martian.TypesR.filter t j0).1 :=
+  filterBytes_tree t hwf hk data out e h hne
+
+/-- `EqL` is reflexive, and it really forgets order: `{"a":1,"b":2}` and `{"b":2,"a":0,"a":1}` -/
+example : EqL (.obj [(ka, .num (.int 1)), (kb, .num (.int 2))])
+    (.obj [(kb, .num (.int 2)), (ka, .num (.int 0)), (ka, .num (.int 1))]) := by
+  refine .obj (by intro k; simp only [getKey]; split <;> split <;> simp_all) ?_
+  intro k v1 v2 h1 h2
+  simp only [getKey] at h1 h2
+  by_cases hb : kb = k
+  · subst hb
+    simp at h1 h2
+    obtain rfl := h1; obtain rfl := h2; exact EqL.refl _
+  · by_cases ha : ka = k
+    · subst ha
+      simp at h1 h2
+      obtain rfl := h1; obtain rfl := h2; exact EqL.refl _
+    · simp [ha, hb] at h1
+
 /-- non-vacuity / witnesses, on bytes: `struct A(int a)` filters `{ "x":null, "a" : 1.0 }` to
 `{"a":1}` (re-encoded: member dropped, number rewritten) and returns `{ "a" : 1 }` untouched,
 white space included (fast path) -/
